@@ -73,7 +73,7 @@ impl Prop for C14 {
     }
 
     fn run_case(&mut self, _idx: u64, rng: &mut Rng, ctx: &mut Ctx) {
-        let o = Opts { data: rng.coin(), func: rng.chance(1, 3), tron: false, stop: true, max_lines: 30, input: false, frac: rng.coin(), strings: rng.coin() };
+        let o = Opts { data: rng.coin(), func: rng.chance(1, 3), tron: false, stop: true, max_lines: 30, input: false, frac: rng.coin(), strings: rng.coin(), arrays: rng.coin() };
         let mut p = gen::generate(rng, o);
         // unreachable tail with the command forms that carry line numbers
         let labels: Vec<usize> = p.lines.iter().map(|l| l.label).collect();
@@ -128,6 +128,21 @@ impl Prop for C14 {
             4 => (format!("RENUM {},,{}", new_v, step_v), new_v, 0, step_v),
             5 => (format!("RENUM ,{}", old_v), 10, old_v, 10),
             _ => (format!("RENUM ,,{}", step_v), 10, 0, step_v),
+        };
+        // one case in eight: a request under which the last line lands on the number it already has while
+        // earlier lines move
+        let (cmd, new_start, old_start, step) = if rng.chance(1, 8) && nums.len() >= 3 {
+            let k = nums.len() - 1;
+            let i = rng.usize(k);
+            let st = *rng.pick(&[1u32, 2, 3, 5, 10]);
+            let n = nums[k] as i64 - st as i64 * (k - i) as i64;
+            if n >= 0 && (i == 0 || n > nums[i - 1] as i64) {
+                (format!("RENUM {},{},{}", n, nums[i], st), n as u32, nums[i] as u32, st)
+            } else {
+                (cmd, new_start, old_start, step)
+            }
+        } else {
+            (cmd, new_start, old_start, step)
         };
         let text = format!("{}\n{}", before.join("\n"), cmd);
         mon::journal(&text);
@@ -281,6 +296,25 @@ impl Prop for C14 {
             return;
         }
         ctx.count("runs_compared");
+        // with the trace on, the renumbered program must behave exactly (line numbers in the trace, in BREAK
+        // and in error messages included) like the reference text typed into a fresh interpreter
+        {
+            let mut c = typed(&want);
+            run(&mut c, "TRON");
+            run(&mut b, "TRON");
+            let (t_ref, st_c, _) = run(&mut c, "RUN");
+            let (t_tr, st_t, _) = run(&mut b, "RUN");
+            ctx.count("traced_runs_compared");
+            if st_c != Stop::Budget && st_t != Stop::Budget && t_ref != t_tr {
+                ctx.violation(
+                    "stale-numbers",
+                    "renum:traced-run",
+                    &format!("{}\nafter RENUM, TRON, RUN: {:?}\nthe renumbered text typed afresh: {:?}", first_diff(&t_tr, &t_ref), t_tr, t_ref),
+                    &format!("{}\nTRON\nRUN", text),
+                );
+                return;
+            }
+        }
         if strip_nums(&t_before) != strip_nums(&t_after) {
             ctx.violation(
                 "behaviour-changed",
